@@ -189,7 +189,7 @@ pub fn run(ctx: &Ctx) -> i32 {
             if d0 != d1 || d0 != d2 {
                 acc.violate(item, "nondeterministic_build", "build:nondeterministic", json!({"case": case(), "digests": [d0.clone(), d1, d2]}));
             }
-            if item < 2 {
+            if acc.samples.is_empty() {
                 acc.sample(json!({"graph": g.describe(), "generator": desc, "outcome": d0.split(':').next(), "oracle_divergent_subsets": divergent.len()}));
             }
             cases.push((g, sig));
